@@ -199,6 +199,7 @@ def main():
   ap.add_argument("--max-per-func", type=int, default=6)
   ap.add_argument("--out", default="/tmp/mutfuzz.json")
   ap.add_argument("--seed", type=int, default=1)
+  ap.add_argument("--funcs", default=None, help="comma-separated function names (substring match)")
   a = ap.parse_args()
   rnd = random.Random(a.seed)
   files = []
@@ -219,6 +220,8 @@ def main():
       byf.setdefault(fn, []).append((kind, mid, fn, line))
     for fn, lst in byf.items():
       if fn == "<module>":
+        continue
+      if a.funcs and not any(x in fn for x in a.funcs.split(",")):
         continue
       rnd.shuffle(lst)
       for kind, mid, fn_, line in lst[:a.max_per_func]:
